@@ -99,7 +99,7 @@ fn verif_grid() {
     let mut n = 0usize;
     for (li, ls) in lseqs.iter().enumerate() { for (ri, rs) in rseqs.iter().enumerate() {
         // the full product is 259 x 259; every left sequence meets a rotating seventeenth of the right sequences
-        if (li + ri) % 17 != 0 { continue; }
+        if left_out(li + ri, 17) { continue; }
         n += 1;
         let left: Vec<(&'static str, L)> = ls.iter().map(|i| LEFT[i.parse::<usize>().unwrap()]).collect();
         let right: Vec<(&'static str, R)> = rs.iter().map(|i| RIGHT[i.parse::<usize>().unwrap()]).collect();
